@@ -539,7 +539,11 @@ def finish(ctx, level="proof"):
     ev = dict(property_id=ctx.pid, tier=ctx.tier, seed=ctx.seed, level=level, coverage=cov,
               assumptions=ctx.assumptions, wall_s=round(time.time() - ctx.t0, 2),
               violations=nviol, known_findings=[k.get("id") for k in ctx.known])
-    with open(os.path.join(VERIF, "evidence", ctx.pid + ".json"), "w") as f:
+    # the committed evidence describes runs against /repo itself: a run against another tree
+    # (VERIF_REPO set by tools/run_seed.py for a seeded change) records its evidence with its build
+    evdir = os.path.join(VERIF, "evidence") if os.path.realpath(REPO) == "/repo" else os.path.join(BUILD, "evidence")
+    os.makedirs(evdir, exist_ok=True)
+    with open(os.path.join(evdir, ctx.pid + ".json"), "w") as f:
         json.dump(ev, f, indent=1, sort_keys=True)
         f.write("\n")
     return 1 if nviol else 0
